@@ -119,7 +119,7 @@ func joinLines(ls []string) string { return strings.Join(ls, `\n`) }
 // renderArgv builds the command line. The file argument is a placeholder resolved by the executor.
 // ArgForm varies the spelling only (never the meaning): bit 0 short flags, bit 1 `--flag value` instead of
 // `--flag=value`, bit 2 flags after the positional arguments, bit 3 the command's alias, bit 4 flags in reverse order,
-// bit 5 (applied by resolveArgv) the file as a path relative to the working directory.
+// bit 5 (applied by resolveArgv) the file as a path relative to the working directory, bit 6 --no-warn, bit 7 --no-style.
 func (o *Op) renderArgv() {
 	ar := &o.Args
 	form := o.ArgForm
@@ -184,6 +184,13 @@ func (o *Op) renderArgv() {
 	}
 	if ar.Extend {
 		sw("extend")
+	}
+	// flags that only concern what is printed: the effect on the file must not depend on them
+	if form&64 != 0 {
+		sw("no-warn")
+	}
+	if form&128 != 0 {
+		sw("no-style")
 	}
 	var pos []string
 	if ar.Entry != nil {
